@@ -962,7 +962,7 @@ class Engine:
             if tok == '!=':
                 return sb(zbool(x) != zbool(y)) if (is_sym(x) or is_sym(y)) else x != y
             raise Unsupported('bool op ' + tok)
-        if k == 'ptr':
+        if k in ('ptr', 'chan'):
             eq = self.ptr_eq(x, y)
             return eq if tok == '==' else Not(eq)
         if k == 'interface':
@@ -1088,6 +1088,9 @@ class Engine:
         raise Unsupported('== on kind %s' % k)
 
     def ptr_eq(self, x, y):
+        nilp = Ptr(((True, None, ()),))
+        x = nilp if x is None else x      # the zero value of a channel type
+        y = nilp if y is None else y
         conds = []
         for g1, o1, p1 in x.alts:
             for g2, o2, p2 in y.alts:
@@ -2737,6 +2740,7 @@ INTRINSICS = {
     'context.Background': lambda e, st, a, i: Opaque('ctx'),
     'golang.org/x/net/context.Background': lambda e, st, a, i: Opaque('ctx'),
     'context.WithTimeout': lambda e, st, a, i: (Opaque('ctx'), FuncV('verif.noop')),
+    'context.WithCancel': lambda e, st, a, i: (Opaque('ctx'), FuncV('verif.noop')),
     'verif.noop': lambda e, st, a, i: None,
     'time.Now': lambda e, st, a, i: e.zero(i['type']),
     'fmt.Sprintf': i_sprintf,
